@@ -18,6 +18,8 @@ R08.7  immediates are decoded with the decoder of their specified type: for ever
 R08.8  section readers follow the binary grammar: each section reader is partially evaluated on a scripted token stream of its
        grammar (counts, names, limits with all three flag forms, value types, mutability, indices, constant expressions) and the
        module record it builds is compared field by field with the decoded module; every token must be consumed
+R08.9  reader primitives accept input that ends exactly at the end of the file (shared with C10 R10.11): a name, number or byte
+       vector in the last section must decode like anywhere else
 R08.6  absent = empty: the module record comes from a zero-initialising allocation, and loops over module arrays are
        bounded by the count stored next to the array they index
 """
@@ -839,6 +841,7 @@ def run(chk):
     n6 = check_absent_is_empty(chk, rtu, funcs)
     n7 = check_immediate_decoders(chk)
     n8 = check_section_grammar(chk, rtu)
+    n9 = c10.check_exact_end(chk, 'R08.9')
     chk.extra['sites'] = dict(leb_call_sites=n1, decoder_paths=n2, custom_section_writes=n4, container_loops=n6, instructions_decoded=n7)
     chk.floor('R08.1', 60)
     chk.floor('R08.2', 60)
@@ -848,3 +851,4 @@ def run(chk):
     chk.floor('R08.6', 10)
     chk.floor('R08.7', 180)
     chk.floor('R08.8', 28)
+    chk.floor('R08.9', 20)
